@@ -12,6 +12,7 @@ import (
 
 	"pikemc/env"
 	"pikemc/oracle"
+	"pikemc/vsched"
 	"pikemc/vtime"
 	"pikemc/xstate"
 )
@@ -81,6 +82,8 @@ func (s *keySys) Reset() {
 			return r
 		case "uncacheable":
 			return env.Uncacheable(oc, "p")
+		case "panic": // what httputil.ReverseProxy does when the upstream's body is cut off (http.ErrAbortHandler)
+			return env.OriginResp{Panic: true}
 		default:
 			return env.OriginResp{Err: env.ProxyError(fmt.Errorf("refused"))}
 		}
@@ -103,7 +106,11 @@ func (s *keySys) Apply(ev int) (string, string, string) {
 	}
 	s.answer = e
 	now := vtime.Get()
-	r := s.e.Do(env.Req{URI: "/k1", Rid: "r"})
+	var r *env.Result
+	if w := vsched.Guarded(now, func() { r = s.e.Do(env.Req{URI: "/k1", Rid: "r"}) }); w != "" || r == nil {
+		s.e.Events()
+		return "blocked", "request-blocks-forever", fmt.Sprintf("at second +%d the request never completed: %s", now-vtime.Base, w)
+	}
 	an := analyze(s.e.Events())
 	contacts := len(an.Reqs["r"].Calls)
 	ser, _, _, _, _, _ := env.ParseSelf(r.Body)
@@ -111,7 +118,7 @@ func (s *keySys) Apply(ev int) (string, string, string) {
 	if s.originAge != "" {
 		oage, _ = strconv.ParseInt(s.originAge, 10, 64)
 	}
-	ans := oracle.Answer{Cacheable: e.Ans == "cacheable", T: int64(e.T) - oage, Fail: e.Ans == "error", Serial: "new"}
+	ans := oracle.Answer{Cacheable: e.Ans == "cacheable", T: int64(e.T) - oage, Fail: e.Ans == "error" || e.Ans == "panic", Serial: "new"}
 	if s.memLost {
 		// "either served again unchanged or refetched": a persisted entry may legitimately be gone
 		probe := s.spec
@@ -129,6 +136,16 @@ func (s *keySys) Apply(ev int) (string, string, string) {
 	}
 	obs := fmt.Sprintf("%d/%s/c%d/age%s", r.Status, r.XStatus, contacts, r.Age)
 	s.lastObs = obs
+	if e.Ans == "panic" && contact && r.Panic != "" {
+		// the request whose own origin call panicked has no answer to judge
+		if contacts != 1 {
+			return obs, fmt.Sprintf("contacts-%d-expected-1", contacts), "panicking origin call"
+		}
+		return obs, "", ""
+	}
+	if r.Panic != "" {
+		return obs, "panic-without-origin-panic", r.Panic
+	}
 	if r.XStatus != label && !(e.Ans == "error" && contact && r.Status >= 400) {
 		return obs, "label-" + r.XStatus + "-expected-" + label, fmt.Sprintf("at second +%d the request was labelled %q, the specification says %q (spec state %s)", now-vtime.Base, r.XStatus, label, s.spec.String(now))
 	}
@@ -253,6 +270,11 @@ func (c *Ctx) runBFS(name string, sys xstate.System, depth int, kase interface{}
 	st.Bounds += fmt.Sprintf("; all %d-event histories without state merging", nd)
 	for _, v := range res2.Violations {
 		c.Violation(name, v.Sig, v.Msg+" after "+fmt.Sprint(v.Names), v.History, kase, v.Names)
+	}
+	if vsched.Leaked {
+		// a request that blocked forever left its goroutine parked: stop this worker after reporting
+		c.Emit()
+		os.Exit(0)
 	}
 	if !res2.Complete {
 		st.Exhaustive = false
